@@ -35,6 +35,7 @@ def run(rep, tier):
     simple_areas(rep, F, ex)
     winding(rep, F)
     winding_table(rep, F)
+    least_index_table(rep, F)
 
 
 def single(ex, fn):
@@ -52,6 +53,73 @@ def lam_body(ex, t):
     return bare(lam.paths[0].ret)
 
 
+def collection_sums(rep, F):
+    """R5.1 sums, decided semantically on collections of 0..3 members (exact unrolling, whatever loop / fold form): with the members' own
+    areas as the only unknowns (s_i = member.signed_area(), u_i = member.unsigned_area()) the result must be the polynomial  sum s_i  resp.
+    sum u_i.  |s_i| counts as u_i only where the member type is Polygon (MultiPolygon): for the members of a GeometryCollection, which may
+    themselves be collections of differently wound parts, |signed| is not the unsigned area."""
+    def vec(items):
+        return ("call", "vec!", (("array", tuple(items)),))
+
+    for ty, abs_ok in (("multi_polygon::MultiPolygon", True), ("geometry_collection::GeometryCollection", False)):
+        name = ty.split("::")[-1]
+        for meth in ("signed_area", "unsigned_area"):
+            try:
+                fn = F.impl_method(AREA, r"^%s%s<T>$" % (GT, ty), None, meth, crates=("geo",))
+            except KeyError as e:
+                rep.bad("R5.1", "sum:%s:anchor" % name, str(e))
+                continue
+            bad = None
+            for n in range(0, 4):
+                members = [("opaque", "m%d" % i) for i in range(n)]
+                arg = ("&", ("adt", GT + ty, name, (vec(members),)))
+                ex = Symex(F, concrete_iters=True, loop_bound=6, inline_crates=("geo", "geo_types"), no_inline=[r"Area<T>>::", r"::signed_area$", r"::unsigned_area$"])
+                try:
+                    ps = [p for p in ex.run(fn, args=[arg]) if p.kind != "cut"]
+                except Unanalysable as e:
+                    bad = "not analysable on a collection of %d members: %s" % (n, e)
+                    break
+                if len(ps) != 1 or ps[0].kind != "ret" or ps[0].pc:
+                    bad = "on a collection of %d members the result depends on %s" % (n, [show_pc(p.pc)[:80] for p in ps][:2])
+                    break
+
+                def leaf(t):
+                    sh = show(t)
+                    if t[0] == "call":
+                        m = t[1].rsplit("::", 1)[-1]
+                        if m in ("signed_area", "unsigned_area") and len(t[2]) == 1:
+                            who = re.sub(r"[&*() ]|opaque", "", show(t[2][0]))
+                            for i in range(n):
+                                if who == "m%d" % i:
+                                    return ("s%d" if m == "signed_area" else "u%d") % i
+                        if m == "abs" and len(t[2]) == 1:
+                            try:
+                                inner = from_term(t[2][0], leaf)
+                                for i in range(n):
+                                    if inner.equals(R(sym("s%d" % i))):
+                                        return "u%d" % i if abs_ok else "|s%d|" % i
+                                    if inner.equals(R(sym("u%d" % i))):
+                                        return "u%d" % i
+                            except ValueError:
+                                pass
+                    return "?" + sh[:60]
+                try:
+                    got = from_term(ps[0].ret, leaf)
+                except ValueError as e:
+                    bad = "result on %d members is not an arithmetic term: %s" % (n, e)
+                    break
+                want = R(P(0))
+                for i in range(n):
+                    want = want + R(sym(("s%d" if meth == "signed_area" else "u%d") % i))
+                if not got.equals(want):
+                    bad = "on a collection of %d members %s() = %s, expected %s (s_i / u_i: the members' signed / unsigned areas)" % (n, meth, show_poly(got.n), show_poly(want.n) or "0")
+                    break
+            if bad:
+                rep.bad("R5.1", "sum:%s::%s" % (name, meth), "%s::%s: %s" % (name, meth, bad), where=fn.loc())
+            else:
+                rep.ok("R5.1", "sum:%s::%s[0..3 members]" % (name, meth))
+
+
 def folds(rep, F, ex):
     rep.rule("R5.1", "zero-/one-dimensional types have zero area; MultiPolygon and GeometryCollection sum member areas (unsigned: absolute values); unsigned = |signed| for Polygon and Triangle")
     for ty in ("point::Point", "line::Line", "line_string::LineString", "multi_point::MultiPoint", "multi_line_string::MultiLineString"):
@@ -65,28 +133,7 @@ def folds(rep, F, ex):
                     rep.bad("R5.1", "zero:%s::%s" % (ty.split("::")[-1], meth), "area of a %s is %s, not the constant zero" % (ty.split("::")[-1], [show(p.ret)[:60] for p in ps]), where=fn.loc())
             except (KeyError, Unanalysable) as e:
                 rep.bad("R5.1", "zero:%s:anchor" % ty, str(e))
-    for ty, members in (("multi_polygon::MultiPolygon", "a1.0"), ("geometry_collection::GeometryCollection", "a1.0")):
-        for meth, want in (("signed_area", [r"^add\(bound\(0\), signed_area\(bound\(1\)\)\)$", r"^add\(bound\(0\), bound\(1\)\)$"]),
-                           ("unsigned_area", [r"^add\(bound\(0\), abs\(signed_area\(bound\(1\)\)\)\)$", r"^add\(bound\(0\), unsigned_area\(bound\(1\)\)\)$", r"^add\(bound\(0\), bound\(1\)\)$"])):
-            name = ty.split("::")[-1]
-            try:
-                fn = F.impl_method(AREA, r"^%s%s<T>$" % (GT, ty), None, meth, crates=("geo",))
-                ps = single(ex, fn)
-                r = bare(ps[0].ret) if len(ps) == 1 else ""
-                body = lam_body(ex, ps[0].ret) if ps else None
-                ok = r.startswith("fold(") and "zero()" in r and members in r and body is not None and any(re.match(w, body) for w in want)
-                if ok and "map(" in r:
-                    # fold over map(members, |g| g.method()): the mapped method must be the right one
-                    cls = find_closures(ps[0].ret, [])
-                    inner = Lam(ex, cls[0], 1)
-                    mb = bare(inner.paths[0].ret) if inner.paths else ""
-                    ok = mb in ("%s(bound(0))" % meth,)
-                if ok:
-                    rep.ok("R5.1", "sum:%s::%s" % (name, meth), sample=body)
-                else:
-                    rep.bad("R5.1", "sum:%s::%s" % (name, meth), "%s::%s is not the sum over all members of the member %s (term %s, step %s)" % (name, meth, meth, r[:100], body), where=fn.loc())
-            except (KeyError, Unanalysable, IndexError) as e:
-                rep.bad("R5.1", "sum:%s:anchor" % name, str(e))
+    collection_sums(rep, F)
     for ty in ("polygon::Polygon", "triangle::Triangle"):
         try:
             fn = F.impl_method(AREA, r"^%s%s<T>$" % (GT, ty), None, "unsigned_area", crates=("geo",))
@@ -375,6 +422,61 @@ def winding_table(rep, F, rule="R5.6"):
         rep.bad(rule, "winding-table:floor", "only %d witness rings" % n_w)
         return
     rep.ok(rule, "winding-table[%d rings, %d (length, least index) tables]" % (n_w, len(tables)), sample={"rings": n_w, "tables": len(tables)})
+
+
+def least_index_table(rep, F, rule="R5.7"):
+    """utils::least_index on slices of 1..3 coordinates (exact unrolling): the returned index names a coordinate that is lexicographically least
+    under the NUMERIC comparison of the scalars (x first, then y; -0.0 and +0.0 are the same number), evaluated on every slice over the
+    values {-0.0, +0.0, 1.0}.  winding_order and Graham's scan start from that vertex: a pivot that is not extreme makes a convex vertex
+    test meaningless."""
+    import itertools
+    import math
+    from ..evalterm import ArithEval, Enum, NoModel
+    rep.rule(rule, "least_index (slices of 1..3 coordinates, exact unrolling, coordinates over {-0.0, +0.0, 1.0}): the index returned names a lexicographically least coordinate under numeric comparison (x, then y), in particular -0.0 == +0.0")
+    try:
+        fn = F.one(r"^geo::utils::least_index$", crates=("geo",))
+    except KeyError as e:
+        rep.bad(rule, "least-index:anchor", str(e))
+        return
+
+    def tkey(v):
+        return (v, math.copysign(1.0, v)) if v == 0 else (v, 0.0)
+
+    class Ev(ArithEval):
+        def call(self, t):
+            m = t[1].rsplit("::", 1)[-1]
+            if m == "total_cmp" and len(t[2]) == 2:
+                a, b = tkey(self.ev(t[2][0])), tkey(self.ev(t[2][1]))
+                return Enum("core::cmp::Ordering", "Less" if a < b else "Greater" if a > b else "Equal")
+            if m == "cmp" and len(t[2]) == 2:
+                a, b = self.ev(t[2][0]), self.ev(t[2][1])
+                return Enum("core::cmp::Ordering", "Less" if a < b else "Greater" if a > b else "Equal")
+            return ArithEval.call(self, t)
+    vals = (-0.0, 0.0, 1.0)
+    coords = [{"x": x, "y": y} for x in vals for y in vals]
+    n_w = 0
+    for n in (1, 2, 3):
+        arr = ("&", ("array", tuple(("opaque", "c%d" % i) for i in range(n))))
+        try:
+            paths = [p for p in Symex(F, concrete_iters=True, loop_bound=8, inline_crates=("geo", "geo_types")).run(fn, args=[arr]) if p.kind != "cut"]
+        except Unanalysable as e:
+            rep.bad(rule, "least-index:unanalysable", "slice of %d coordinates: %s" % (n, e), where=fn.loc())
+            return
+        for cs in itertools.product(coords, repeat=n):
+            ev = Ev(F, {("opaque", "c%d" % i): cs[i] for i in range(n)})
+            try:
+                hit = ev.select_path(paths)
+                got = sorted(set(ev.ev(h.ret) if h.kind == "ret" else "panic" for h in hit))
+            except (NoModel, TypeError, KeyError) as e:
+                rep.bad(rule, "least-index:non-abstractable", "a decision of least_index cannot be evaluated on numbers (%s)" % e, where=fn.loc())
+                return
+            best = min((c["x"], c["y"]) for c in cs)
+            n_w += 1
+            if len(got) != 1 or got[0] == "panic" or not isinstance(got[0], int) or not (0 <= got[0] < n) or (cs[got[0]]["x"], cs[got[0]]["y"]) != best:
+                rep.bad(rule, "least-index:table", "least_index(%s) = %s, but the lexicographically least coordinate is %s" %
+                        ([(c["x"], c["y"]) for c in cs], got, best), where=fn.loc())
+                return
+    rep.ok(rule, "least-index[%d slices]" % n_w)
 
 
 def fmt_ring(coords):
